@@ -5,6 +5,7 @@ package main
 import (
 	"fmt"
 	"math"
+	"time"
 
 	hydrapb "github.com/hydraide/hydraide/sdk/go/hydraidego/v3/hydraidepbgo"
 	"github.com/vmihailenco/msgpack/v5"
@@ -148,4 +149,80 @@ func witnessCases(run *common.Run) {
 	}
 	run.Meta.Extra["witness_routes_agree"] = wres
 	run.Meta.Traces += len(ws)
+}
+
+// ---- equality matrix --------------------------------------------------------------------------
+// One swamp whose records hold every exotic value of the pools in field "a"; one request per
+// compare value (EQUAL) and a few IN lists. Covers the whole value x compare-value product of the
+// canonical equality rule on both routes on every run.
+func matrixCases(run *common.Run) {
+	vals := []interface{}{int8(5), int64(5), int64(-1), int64(0), int64(1<<53 + 1), int64(1 << 53), int64(math.MaxInt64), int64(math.MinInt64),
+		int64(math.MaxInt64 - 511), uint8(5), uint64(0), uint64(1 << 63), uint64(1<<63 + 1), uint64(math.MaxUint64), uint64(1<<53 + 1), uint64(1 << 53),
+		uint64(math.MaxUint64 - 2047), float64(5), 5.7, float32(5.7), 0.0, math.Copysign(0, -1), -1.0, math.NaN(), math.Inf(1), math.Inf(-1),
+		9007199254740992.0, 9223372036854775808.0, -9223372036854775808.0, 18446744073709551616.0, 18446744073709549568.0, 9223372036854774784.0,
+		"5", "x", "", true, false, nil, time.Unix(5, 0).UTC(), []interface{}{int64(5)}, map[string]interface{}{"q": int64(5)}}
+	swamp := "c08/mx/w"
+	for i, v := range vals {
+		b, err := msgpack.Marshal(map[string]interface{}{"a": v})
+		if err != nil {
+			panic(err)
+		}
+		setKV(swamp, &hydrapb.KeyValuePair{Key: fmt.Sprintf("m%02d", i), BytesVal: append([]byte{0xC7, 0x00}, b...)})
+	}
+	contents := observeContents(swamp)
+	var legs []*hydrapb.TreasureFilter
+	path := "a"
+	add := func(set func(f *hydrapb.TreasureFilter)) {
+		p := path
+		f := &hydrapb.TreasureFilter{Operator: hydrapb.Relational_EQUAL, BytesFieldPath: &p}
+		set(f)
+		legs = append(legs, f)
+	}
+	for _, c := range []int64{5, -1, 0, 1<<53 + 1, 1 << 53, math.MaxInt64, math.MinInt64, math.MaxInt64 - 511} {
+		c := c
+		add(func(f *hydrapb.TreasureFilter) { f.CompareValue = &hydrapb.TreasureFilter_Int64Val{Int64Val: c} })
+	}
+	add(func(f *hydrapb.TreasureFilter) { f.CompareValue = &hydrapb.TreasureFilter_Int8Val{Int8Val: 5} })
+	add(func(f *hydrapb.TreasureFilter) { f.CompareValue = &hydrapb.TreasureFilter_Uint8Val{Uint8Val: 5} })
+	for _, c := range []uint64{5, 0, 1 << 63, 1<<63 + 1, math.MaxUint64, 1<<53 + 1, 1 << 53, math.MaxUint64 - 2047} {
+		c := c
+		add(func(f *hydrapb.TreasureFilter) { f.CompareValue = &hydrapb.TreasureFilter_Uint64Val{Uint64Val: c} })
+	}
+	for _, c := range []float64{5, 5.7, float64(float32(5.7)), 0, math.Copysign(0, -1), -1, math.NaN(), math.Inf(1), 9007199254740992, 9223372036854775808,
+		-9223372036854775808, 18446744073709551616, 18446744073709549568, 9223372036854774784} {
+		c := c
+		add(func(f *hydrapb.TreasureFilter) { f.CompareValue = &hydrapb.TreasureFilter_Float64Val{Float64Val: c} })
+	}
+	add(func(f *hydrapb.TreasureFilter) { f.CompareValue = &hydrapb.TreasureFilter_Float32Val{Float32Val: 5.7} })
+	for _, c := range []string{"5", "x", ""} {
+		c := c
+		add(func(f *hydrapb.TreasureFilter) { f.CompareValue = &hydrapb.TreasureFilter_StringVal{StringVal: c} })
+	}
+	add(func(f *hydrapb.TreasureFilter) {
+		f.CompareValue = &hydrapb.TreasureFilter_BoolVal{BoolVal: hydrapb.Boolean_TRUE}
+	})
+	add(func(f *hydrapb.TreasureFilter) {
+		f.CompareValue = &hydrapb.TreasureFilter_BoolVal{BoolVal: hydrapb.Boolean_FALSE}
+	})
+	p1, p2, p3 := "a", "a", "a"
+	legs = append(legs,
+		&hydrapb.TreasureFilter{Operator: hydrapb.Relational_INT64_IN, BytesFieldPath: &p1, Int64InVals: []int64{5, 0, math.MinInt64, 1 << 53, 1<<53 + 1, math.MaxInt64}},
+		&hydrapb.TreasureFilter{Operator: hydrapb.Relational_INT32_IN, BytesFieldPath: &p2, Int32InVals: []int32{5, -1}},
+		&hydrapb.TreasureFilter{Operator: hydrapb.Relational_STRING_IN, BytesFieldPath: &p3, StringInVals: []string{"5", ""}})
+	for _, l := range legs {
+		c := runQueryCase(swamp, reqSpec{F: &hydrapb.FilterGroup{Filters: []*hydrapb.TreasureFilter{l}}}, contents, "matrix")
+		run.Add(c.term, c.descr, c.nontrivial)
+		run.Hist("matrix")
+		// the same compare value through an ordering operator (scan-side truncating conversions)
+		for _, op := range []hydrapb.Relational_Operator{hydrapb.Relational_NOT_EQUAL, hydrapb.Relational_GREATER_THAN_OR_EQUAL, hydrapb.Relational_LESS_THAN} {
+			if l.Operator != hydrapb.Relational_EQUAL {
+				continue
+			}
+			p := "a"
+			l2 := &hydrapb.TreasureFilter{Operator: op, BytesFieldPath: &p, CompareValue: l.CompareValue}
+			c := runQueryCase(swamp, reqSpec{F: &hydrapb.FilterGroup{Filters: []*hydrapb.TreasureFilter{l2}}}, contents, "matrix")
+			run.Add(c.term, c.descr, c.nontrivial)
+			run.Hist("matrix_ordering")
+		}
+	}
 }
